@@ -308,7 +308,7 @@ func (w *World) enabled(op string) bool {
 		return w.Tr == nil
 	case "tput", "tdel", "twrite", "tbig", "commit", "discard":
 		return w.Tr != nil
-	case "put", "putE", "putL", "putM", "putX", "del", "b1", "b2", "big", "w", "trx", "trxr", "cr", "crb", "crk":
+	case "put", "putE", "putL", "putM", "putX", "del", "b1", "b2", "big", "w", "trx", "trxr", "trd", "cr", "crb", "crk":
 		// writers and CompactRange block while a transaction is open
 		return w.Tr == nil
 	}
@@ -464,6 +464,24 @@ func (w *World) Apply(op string) {
 			w.M.Apply(mb)
 		}
 		w.opErr("transaction", err)
+	case "trd":
+		// a transaction that is filled until it has written `arg` tables of its own and is then
+		// discarded: no visible effect, but the tables' file numbers were handed out and never
+		// reach the manifest
+		tr, err := w.DB.OpenTransaction()
+		if err != nil {
+			w.opErr("OpenTransaction", err)
+			return
+		}
+		n := atoi(arg)
+		big := strings.Repeat("t", 2*w.Cfg.Options().GetWriteBuffer()+64)
+		for i := 0; i <= n; i++ {
+			if err := tr.Put([]byte{'t', byte('0' + i)}, []byte(big), nil); err != nil {
+				w.opErr("Transaction.Put", err)
+				break
+			}
+		}
+		tr.Discard()
 	case "cr":
 		w.opErr("CompactRange", w.DB.CompactRange(util.Range{}))
 	case "crb":
